@@ -432,8 +432,10 @@ def conclude(ctx, level, coverage, violations, assumptions, extra=None):
         ev["coverage"]["known_findings_seen"] = sorted(seen_known)
     if extra:
         ev.update(extra)
-    os.makedirs(EVID, exist_ok=True)
-    with open(os.path.join(EVID, "%s.json" % ctx.pid), "w") as f:
+    # evidence/ holds exactly one file per listed property; supporting checks write next to it
+    evdir = EVID if re.fullmatch(r"C\d\d", ctx.pid) else EVID + "_support"
+    os.makedirs(evdir, exist_ok=True)
+    with open(os.path.join(evdir, "%s.json" % ctx.pid), "w") as f:
         json.dump(ev, f, indent=1)
     log("RESULT property=%s tier=%s violations=%d known=%d wall=%.0fs" %
         (ctx.pid, ctx.tier, len(new), len(seen_known), time.time() - ctx.t0))
